@@ -12,18 +12,30 @@ Implementation arm (independent of the model): global = finalised sum of the sta
     offsets computed here (+ the full connection matrices for assemblies); reported size = sum of component sizes; force
     vectors = concatenation; the same bay with its skin cut elsewhere gives the same k0, kG0, kM; (bay with stiffener) -
     (bay without, embedded) is symmetric PSD for k0 and kM.
+T : the nine stiffener kernels (compmech/stiffener/models/*.pyx) are regenerated into lean/CompmechVerif/Gen/Stiff/* by
+    tools/translate/gen_stiff.py; Props/C13.lean proves every entry = Hessian of the penalty / beam energy of Spec/StiffInterface.lean,
+    symmetry and positive semi-definiteness.
+V : `stiff_validation`: the translated IR interpreted numerically (exact Bardell polynomials) against the running kernels; and the same
+    three files executed from their text (tools/source_tie.py group 'stiffener_kernels').  `stiff_energy_checks`: the energies of
+    Spec/StiffInterface.lean (Python mirror below) against the running kernels (implementation arm) and, in the search, against the
+    source as written (source arm).
 """
 import contextlib
 import copy
 import gc
+import importlib
 import json
 import types
 
 import numpy as np
 
 from tools.common import q, unq, driver
-from tools import panel_v
+from tools import bardell, panel_v, source_tie
 from tools.props import panel_common as pc
+from tools.translate import gen_stiff
+
+EXTRA_TARGETS = ['CompmechVerif.Gen.Stiff.Blade1D', 'CompmechVerif.Gen.Stiff.Blade2D', 'CompmechVerif.Gen.Stiff.T2D',
+                 'CompmechVerif.Gen.Stiff.Literals']
 
 TRUSTED = [
     'Lean 4.33 kernel; axioms within {propext, Classical.choice, Quot.sound} (audited each run)',
@@ -33,7 +45,11 @@ TRUSTED = [
     'that a kernel asked to write at (row0, col0) returns its stand-alone matrix shifted there is NOT proved: it is checked '
     'numerically on the implementation (stand-alone component matrix vs global matrix)',
     'additivity of the skin kernels over adjacent y intervals is a hypothesis of skin_split_invariant; checked numerically here',
-    'positive semi-definiteness of stiffener contributions is checked numerically only (eigvalsh, 1e-9 of the scale)',
+    'translator tools/translate/gen_stiff.py (+ pyx.py) of the stiffener kernels: validated on every run against the running kernels '
+    '(stiff_validation) and doubled by the source reading of the same files (tools/cyexec.py, tools/source_tie.py)',
+    'operator tables lean/CompmechVerif/Spec/StiffInterface.lean and their Python mirror stiff_oracle in this plugin',
+    'positive semi-definiteness of the stiffener KERNELS is a theorem for the per-pair values (Props/C13.lean); for the finalised '
+    'contribution of a whole stiffener (base / flange panels + kernels, as a sparse matrix) it is checked numerically (eigvalsh, 1e-9 of the scale)',
     'scipy.sparse COO/CSR semantics (duplicates add) = Asm.toFun; numpy.linalg.eigvalsh in the PSD predicate',
     'IEEE rounding not modelled: matrices compared to 1e-9 of the matrix scale',
 ]
@@ -1199,6 +1215,197 @@ def run_cases(ctx, cases, rng):
     return True
 
 
+# ---------------------------------------------------------------------------------------------- stiffener kernels: T, V, energies
+def translate(ctx):
+    if not hasattr(ctx, '_stiff_ir'):
+        ctx._stiff_ir = gen_stiff.translate_all()
+    return ctx._stiff_ir
+
+
+def stiff_rel(A, B, args):
+    """max |A - B| on the scale of the larger matrix.  Basis functions that vanish on the stiffener line (eta = -1 or 1, edge flags 0, or
+    the functions above the fourth, whose value and slope vanish at both ends) are evaluated there to ~1e-16 instead of 0 by the C code and
+    by numpy, differently; a matrix (block) that should be null then holds noise of about 1e-15 x the largest argument (kt, E1, mu ...),
+    which is discounted"""
+    noise = 1e-12 * max([1.] + [abs(x) for x in args if isinstance(x, float)])
+    return float(max(np.abs(A - B).max() - noise, 0.) / max(np.abs(A).max(), np.abs(B).max(), 1e-300))
+
+
+def stiff_raw(A, B, args):
+    """plain max |A - B| / max |.| for the evidence; 0 for matrices that are null up to the noise described above"""
+    noise = 1e-12 * max([1.] + [abs(x) for x in args if isinstance(x, float)])
+    sc = max(np.abs(A).max(), np.abs(B).max())
+    return float(np.abs(A - B).max() / sc) if sc > 1e6 * noise else 0.
+
+
+def stiff_args(name, rng, n):
+    return [a for a, _ in source_tie.stiffener_cases(name, rng.randrange(1 << 30), n + 1)[1:]]
+
+
+def stiff_validation(ctx, rng):
+    """V: every translated stiffener kernel, interpreted numerically from the IR (loop nest, dof map, atoms, locals, entries; integrals and
+    point values from the exact Bardell polynomials of tools/bardell.py), against the running kernel on random realistic arguments"""
+    ir = translate(ctx)
+    worst = {}
+    for model, (kernels, consts) in ir.items():
+        mod = pc.quiet(importlib.import_module, 'compmech.stiffener.models.' + gen_stiff.FILES[model])
+        for name, K in kernels.items():
+            for args in stiff_args(name, rng, ctx.scale(5, 40)):
+                ctx.evaluations += 1
+                real = np.asarray(getattr(mod, name)(*args).toarray(), dtype=float)
+                mine = gen_stiff.interp(K, consts, args)
+                d = stiff_rel(real, mine, args)
+                worst[name] = max(worst.get(name, 0.), d, stiff_raw(real, mine, args))
+                if d > 1e-9:
+                    i, j = np.unravel_index(np.abs(real - mine).argmax(), real.shape)
+                    ctx.violation('translated %s (tools/translate/gen_stiff.py, %s) interpreted on these arguments differs from the running '
+                                  'kernel: rel %.3e at [%d,%d] (kernel %.9e, translated source %.9e) - the translator is wrong or source and '
+                                  'binary have diverged' % (name, gen_stiff.FILES[model], d, i, j, real[i, j], mine[i, j]),
+                                  dict(kind='stiffener kernel V', kernel=name, args=args), found_input=False)
+                    return False
+    ctx.cov['stiffener_kernel_V'] = dict(max_rel_diff=worst, tolerance=1e-9,
+                                         what='IR of gen_stiff.py interpreted with exact Bardell polynomials vs compiled kernels')
+    return True
+
+
+# Python mirror of lean/CompmechVerif/Spec/StiffInterface.lean (operator tables: {pan: {field: {component: [(coef, d_xi, d_eta)]}}})
+def _fl(P, f, d, suf=''):
+    return tuple(float(P['%s%s%s%s' % (f, e, d, suf)]) for e in ('1t', '1r', '2t', '2r'))
+
+
+def stiff_oracle(model, name, K, args):
+    """dense matrix of the energy Hessian the Lean theorems state for kernel `name`, at the (row0, col0) the kernel is handed;
+    diagonal blocks: upper triangle mirrored (what finalize_symmetric_matrix makes of the kernel's output)"""
+    P = dict(zip(K.params, args))
+    size, row0, col0 = int(P['size']), int(P['row0']), int(P['col0'])
+    out = np.zeros((size, size))
+    a, b = P['a'], P.get('b')
+    one = [(1., 0, 0)]
+    if model == 'Blade1D':
+        eta = 2 * P['ys'] / b - 1.
+        if name == 'fk0f':
+            ops = {'u': {0: [(2 / a, 1, 0)]}, 'w': {0: [(P['df'] * 4 / (a * a), 2, 0)], 1: [(4 / (a * a), 2, 0)], 2: [(4 / (a * b), 1, 1)]}}
+            bf = P['bf']
+            W = [[bf * P['E1'], 0., -bf * P['S1']], [0., bf * P['F1'], 0.], [-bf * P['S1'], 0., bf * P['Jxx']]]
+        elif name == 'fkG0f':
+            ops = {'w': {0: [(2 / a, 1, 0)]}}
+            W = [[P['Fx']]]
+        else:
+            M = P['mu'] * P['bf'] * P['hf']
+            hh = P['h'] + 2 * P['hb']
+            I = (4 * P['bf'] ** 2 + 6 * P['bf'] * hh + 3 * hh ** 2) / 12.
+            cpl = 2. * P['df']                       # AS ENCODED (finding C13-blade1d-flange-mass-coupling-doubled: the energy has df)
+            ops = {'u': {0: one}, 'v': {1: one}, 'w': {2: one, 3: [(2 / a, 1, 0)], 4: [(2 / b, 0, 1)]}}
+            W = [[0.] * 5 for _ in range(5)]
+            W[0][0] = W[1][1] = W[2][2] = M
+            W[3][3] = W[4][4] = M * I
+            W[0][3] = W[3][0] = W[1][4] = W[4][1] = M * cpl
+        m, n = int(P['m']), int(P['n'])
+        flds = [f for f in 'uvw' if ('%s1tx' % f) in P]
+        for fa in flds:
+            for fb in flds:
+                for i in range(m):
+                    for k in range(m):
+                        for j in range(n):
+                            for l in range(n):
+                                tot = 0.
+                                for p_, row in ops.get(fa, {}).items():
+                                    for q_, col in ops.get(fb, {}).items():
+                                        if W[p_][q_] == 0:
+                                            continue
+                                        for (cs, sx, sy) in row:
+                                            for (ct_, tx, ty) in col:
+                                                tot += W[p_][q_] * cs * ct_ * bardell.J(sx, i, _fl(P, fa, 'x'), tx, k, _fl(P, fb, 'x')) \
+                                                    * bardell.phi(sy, j, _fl(P, fa, 'y'), eta) * bardell.phi(ty, l, _fl(P, fb, 'y'), eta)
+                                out[row0 + 3 * (j * m + i) + 'uvw'.index(fa), col0 + 3 * (l * m + k) + 'uvw'.index(fb)] += a / 2. * tot
+        return panel_v.finalize_sym(out)
+    pa, pb = gen_stiff.FUNCS[model][name][1]
+    suf2 = gen_stiff.SUFFIX2[model]
+    suf = {'p1': '', 'p2': suf2}
+    mn = {'p1': (int(P.get('m', 0)), int(P.get('n', 0))), 'p2': (int(P.get('m1', 0)), int(P.get('n1', 0)))}
+    sgn = {'p1': 1., 'p2': -1.}
+    if model == 'Blade2D':
+        bf = P.get('bf')
+        ops = {'p1': {'u': {0: one}, 'v': {1: one}, 'w': {2: one, 3: [(2 / b, 0, 1)] if b else []}},
+               'p2': {'u': {0: one}, 'w': {1: one, 3: [(2 / bf, 0, 1)] if bf else []}, 'v': {2: [(-1., 0, 0)]}}}
+        W = [P['kt'], P['kt'], P['kt'], P['kr']]
+        pt = {'p1': (2 * P['ys'] / b - 1.) if b else None, 'p2': -1.}
+        fac = a / 2.
+
+        def yint(pA, fA, sy, j, pB, fB, ty, l):
+            return bardell.phi(sy, j, _fl(P, fA, 'y', suf[pA]), pt[pA]) * bardell.phi(ty, l, _fl(P, fB, 'y', suf[pB]), pt[pB])
+    else:
+        e1, e2 = 2 * P['y1'] / b - 1., 2 * P['y2'] / b - 1.
+        c0, c1 = 0.5 * (e1 + e2), 0.5 * (e2 - e1)
+        dpb = P.get('dpb', 0.)
+        ops = {'p1': {'u': {0: one}, 'v': {1: one}, 'w': {2: one, 0: [(dpb * 2 / a, 1, 0)], 1: [(dpb * 2 / b, 0, 1)]}},
+               'p2': {'u': {0: one}, 'v': {1: one}, 'w': {2: one}}}
+        W = [P['kt'], P['kt'], P['kt'], 0.]
+        fac = a * (P['y2'] - P['y1']) / 4.
+
+        def yint(pA, fA, sy, j, pB, fB, ty, l):
+            if (pA, pB) == ('p1', 'p1'):
+                return bardell.J(sy, j, _fl(P, fA, 'y'), ty, l, _fl(P, fB, 'y'), e1, e2) / c1
+            if (pA, pB) == ('p1', 'p2'):
+                return gen_stiff.mapped_integral(ty, l, _fl(P, fB, 'y', suf2), sy, j, _fl(P, fA, 'y'), c0, c1)
+            return bardell.J(sy, j, _fl(P, fA, 'y', suf2), ty, l, _fl(P, fB, 'y', suf2))
+    (mA, nA), (mB, nB) = mn[pa], mn[pb]
+    for fa in 'uvw':
+        for fb in 'uvw':
+            for i in range(mA):
+                for k in range(mB):
+                    for j in range(nA):
+                        for l in range(nB):
+                            tot = 0.
+                            for c_ in range(4):
+                                if W[c_] == 0:
+                                    continue
+                                for (cs, sx, sy) in ops[pa].get(fa, {}).get(c_, []):
+                                    for (ct_, tx, ty) in ops[pb].get(fb, {}).get(c_, []):
+                                        jx = bardell.J(sx, i, _fl(P, fa, 'x', suf[pa]), tx, k, _fl(P, fb, 'x', suf[pb]))
+                                        if model == 'Blade2D':
+                                            # line penalty: dx = order along the line, dy = order normal to it
+                                            tot += W[c_] * cs * ct_ * jx * yint(pa, fa, sy, j, pb, fb, ty, l)
+                                        else:
+                                            tot += W[c_] * cs * ct_ * jx * yint(pa, fa, sy, j, pb, fb, ty, l)
+                            out[row0 + 3 * (j * mA + i) + 'uvw'.index(fa), col0 + 3 * (l * mB + k) + 'uvw'.index(fb)] += \
+                                sgn[pa] * sgn[pb] * fac * tot
+    return panel_v.finalize_sym(out) if pa == pb else out
+
+
+def stiff_energy_checks(ctx, rng, source=False, ncases=None):
+    """the energies of Spec/StiffInterface.lean against the running kernels (source=False: implementation arm) or against the translated
+    source as written (source=True: source arm of the search).  returns None or (text, replay)"""
+    ir = translate(ctx)
+    worst = {}
+    for model, (kernels, consts) in ir.items():
+        mod = pc.quiet(importlib.import_module, 'compmech.stiffener.models.' + gen_stiff.FILES[model])
+        for name, K in kernels.items():
+            diag = gen_stiff.FUNCS[model][name][1][0] == gen_stiff.FUNCS[model][name][1][1]
+            for args in stiff_args(name, rng, ncases or ctx.scale(3, 20)):
+                ctx.evaluations += 1
+                if source:
+                    got = gen_stiff.interp(K, consts, args)
+                else:
+                    got = np.asarray(getattr(mod, name)(*args).toarray(), dtype=float)
+                if diag:
+                    got = panel_v.finalize_sym(got)
+                want = stiff_oracle(model, name, K, args)
+                d = stiff_rel(got, want, args)
+                worst[name] = max(worst.get(name, 0.), d, stiff_raw(got, want, args))
+                if d > 1e-9:
+                    i, j = np.unravel_index(np.abs(got - want).argmax(), got.shape)
+                    return ('%s %s: the matrix differs from the Hessian of the energy of Spec/StiffInterface.lean (%s): rel %.3e at [%d,%d] '
+                            '(%s %.9e, energy %.9e)' % (gen_stiff.FILES[model] + '.' + name,
+                                                        '(source as written)' if source else '(running kernel)',
+                                                        {'Blade1D': 'beam on the skin line', 'Blade2D': 'skin-flange penalty on the line y = ys',
+                                                         'T2D': 'skin-base penalty over the strip'}[model], d, i, j,
+                                                        'source' if source else 'kernel', got[i, j], want[i, j]),
+                            dict(kind='stiffener kernel energy', kernel=name, args=args, source=source))
+    ctx.cov['stiffener_kernel_energy_%s' % ('source' if source else 'binary')] = dict(max_rel_diff=worst, tolerance=1e-9)
+    return None
+
+
 def describe(case, dist):
     if case['kind'] == 'asm':
         n = len(case['panels'])
@@ -1222,6 +1429,15 @@ def describe(case, dist):
 
 def correspondence(ctx):
     rng = ctx.rng
+    # stiffener kernels: translator validation, source reading, energies on the running kernels
+    if not stiff_validation(ctx, rng):
+        return
+    if source_tie.check(ctx, 'C13', ('stiffener_kernels',), predicate=lambda: stiff_energy_checks(ctx, rng, source=True)):
+        return
+    found = stiff_energy_checks(ctx, rng)
+    if found:
+        ctx.violation('C13 fails on the implementation: ' + found[0], found[1])
+        return
     dist = dict(asm_panels={}, asm_conns={}, asm_p1_after_p2=0, asm_models=0, bay_curved=0, bay_cuts={}, bay_stiffeners={},
                 bay_variants={})
     cases = corpus()
@@ -1253,8 +1469,17 @@ def correspondence(ctx):
 
 
 def search(ctx, reason):
-    """implementation arm only: the predicates do not need the model"""
+    """source arm for the stiffener kernels (the translated source as written against the energies of the theorems), then the
+    implementation arm: the predicates do not need the model"""
     rng = ctx.rng
+    try:
+        found = stiff_energy_checks(ctx, rng, source=True, ncases=ctx.scale(30, 120))
+    except Exception as e:                        # noqa  (the translator itself may be what broke)
+        ctx.log('source arm of the stiffener kernels not available: %r' % (e,))
+        found = None
+    if found:
+        ctx.violation('C13 fails on the source as written: ' + found[0] + ' [after: %s]' % '; '.join(reason)[:300], found[1])
+        return True
     cases = corpus() + [gen_asm(rng) for _ in range(ctx.scale(40, 200))] + [gen_bay(rng) for _ in range(ctx.scale(60, 300))]
     found = False
     for case in cases:
